@@ -52,6 +52,16 @@ for rnd in range(rounds):
                 tr = ks.load_trace(path)
                 first = [e for e in tr if e["ev"] == "cmd"][:12]
                 cov["samples"].append({"kind": "real-clock programme", "commands": ["t=%d %s -> %s" % (e["now"], ks.show_argv(e["argv"]), ks.show_reply(e["reply"])) for e in first]})
+# ---- lifecycle programmes (in process, long deadlines): a key that ceases to exist - DEL, or an aggregate emptied by any
+# draining command - loses its deadline; re-created keys start without one; structural check (no deadline recorded for a
+# missing key) after every command
+lc = ks.run_b2("lifecycle", 240 if tier == "quick" else 4000, 60, seed, nproc=8)
+cov["traces_validated_against_impl"] += lc["programmes"]
+cov["events"] += lc["events"]
+cov["lifecycle_programmes"] = lc["programmes"]
+labels |= lc["labels"]
+for m, path in lc["mismatches"]:
+    v.report(ks.signature(m), ks.replay_of(m, path), what="lifecycle programme:\n" + ks.explain(m, path, context=10))
 cov["labels_exercised"] = len(labels)
 v.finish(tier, "model_checking", cov, ["real clock; one-second granularity: a key is certainly visible before its deadline second, certainly gone after it, either during it (deadline windows of KsCore.tla)",
                                        "deadlines of 1-3 s; TTL-setting commands are never issued in the last 200 ms of a second; no statement about clock jumps",
